@@ -91,7 +91,14 @@ def rand_history(rng, nops, big=False):
             if r < 0.9:
                 return rng.choice([0, -1, n, n - 1, -n, -n - 1, n + 1])
             return rng.choice([2147483647, -2147483648, -2147483647, 2147483646, 65536, -65536, n + 1000, -n - 1000])
-        if k == 'addat':
+        if k == 'addat' and n > 0 and rng.random() < 0.15:
+            # the new element is one of the vector's own, handed in through the pointer getat(j, newmem=false) returned
+            i, j = rng.choice([0, n, n // 2, -1, rng.randrange(-n, n + 1)]), rng.randrange(-n, n)
+            ops.append('addself %d %d' % (i, j))
+            p = i + n if i < 0 else i
+            if 0 <= p <= n:
+                n += 1
+        elif k == 'addat':
             i = idx()
             d = 'NULL' if rng.random() < 0.03 else hexs(relem(rng, os_))
             ops.append('addat %d %s' % (i, d))
